@@ -109,7 +109,43 @@ E13_FLOORS = [
      lambda t: _fld(t, "idem") == "1" and _fld(t, "spec").startswith("0:") and _slow_first(t), 14),
     ("that failed", lambda t: _fld(t, "res").startswith("X"), 150),
 ]
-KIND_FLOORS = {"I": 35, "X": 100000, "P": 30000}
+# IF / XF are deterministic blocks: one IF case per generated field variant of every fielded error class
+# (1188), six directed XF shapes per variant (7128)
+KIND_FLOORS = {"I": 35, "X": 100000, "P": 30000, "IF": 1188, "XF": 7128}
+# fielded error classes whose every boolean / enum field value must occur in the directed XF block, in a shape where
+# the error is produced while another execution is still in flight (first two shapes) and as the last result
+XF_FIELD_VALUES = (
+    [("RateLimitReached", "rbc%d" % b) for b in (0, 1)] + [("RateLimitReached", "op" + o) for o in ("R", "W", "O2")]
+    + [(c, ";%d" % b) for c in ("ReadTimeout", "ReadFailure") for b in (0, 1)]
+    + [(c, ";" + w) for c in ("WriteTimeout", "WriteFailure")
+       for w in ("Simple", "Batch", "UnloggedBatch", "Counter", "BatchLog", "Cas", "View", "Cdc", "Other")]
+    + [(c, "~" + cl + ";") for c in ("Unavailable", "ReadTimeout", "WriteTimeout", "ReadFailure", "WriteFailure")
+       for cl in ("Any", "One", "Two", "Three", "Quorum", "All", "LocalQuorum", "EachQuorum", "LocalOne", "Serial", "LocalSerial")]
+)
+
+
+def _xf_floor(lines):
+    """every (class, field value) above: >= 1 XF case with a success pending and >= 1 as the last result"""
+    seen = set()
+    for ln in lines:
+        if not ln.startswith("XF "):
+            continue
+        case = ln.split("|")[0]
+        pending = ":S" in case
+        for tok in case.split()[3].split(","):
+            if "~" not in tok:
+                continue
+            name, var = tok.split(":", 1)[1].split("~", 1)
+            cls = name.rsplit(".", 1)[-1]
+            v = "~" + var + ";"
+            for c, fv in XF_FIELD_VALUES:
+                # "~Cl;" = first field, "op.." = first field, "rbc." / ";<dp>" / ";<write type>" = last field
+                hit = v.startswith(fv) if fv.startswith("~") else v.startswith("~" + fv + ";") if fv.startswith("op") \
+                    else v.endswith(";" + fv + ";") if fv.startswith("rbc") else v.endswith(fv + ";")
+                if c == cls and hit:
+                    seen.add((c, fv, pending))
+    return [(c, fv, p) for c, fv in XF_FIELD_VALUES for p in (True, False) if (c, fv, p) not in seen]
+
 
 
 def _slow_first(t):
@@ -130,6 +166,9 @@ def _post(lines, verdicts):
         for ln in lines:
             k = ln.split(" ", 1)[0]
             kinds[k] = kinds.get(k, 0) + 1
+        missing = _xf_floor(lines)
+        if missing:
+            out.append(("diff", "XF", "diff floor: directed XF block lacks (class, field value, success pending) %s" % missing[:6]))
         for k, floor in KIND_FLOORS.items():
             if kinds.get(k, 0) < floor:
                 out.append(("diff", k, "diff floor: %d %s cases (floor %d)" % (kinds.get(k, 0), k, floor)))
@@ -153,13 +192,14 @@ def _extra(lines, verdicts):
     multi = 0
     obs = 0
     for ln in lines:
-        if ln.startswith("X ") or ln.startswith("P "):
+        if ln.startswith("X ") or ln.startswith("XF ") or ln.startswith("P "):
             # observations only: the last token of an X line (`c=...`) is the real can_be_ignored classification
             k = len([t for t in ln.split("|", 1)[1].split() if not t.startswith("c=")])
             obs += k
             if k > 1:
                 multi += 1
-    return {"observations_checked": obs, "cases_with_more_than_one_observed_tie_resolution": multi,
+    fielded = sum(1 for ln in lines if ln.startswith("X ") and "~" in ln.split("|")[0])
+    return {"observations_checked": obs, "random_X_cases_with_a_field_variant": fielded, "cases_with_more_than_one_observed_tie_resolution": multi,
             "census": "variant lists of RequestError / RequestAttemptError / DbError in /repo == the model's (34 error names)",
             **e2e_coverage(lines, "E13")}
 
@@ -172,6 +212,14 @@ SPEC = {
     "min_cases": {"quick": 150000, "thorough": 1900000},
     "search_n": 400000,
     "rule": ("I = the complete can_be_ignored table (every RequestError / RequestAttemptError / DbError variant). "
+             "Error names may carry a field suffix ~<fields> naming the field values of the constructed real value (the model and the "
+             "code's classification are field-independent; the driver drops the suffix; the runner reads the fields back from the value): "
+             "IF = can_be_ignored over every generated field variant (1188: RateLimitReached op_type Read/Write/Other x rejected_by_coordinator; "
+             "Unavailable 11 consistencies x alive 0 / < / = / > required; Read/WriteTimeout, Read/WriteFailure 11 consistencies x received 0 / < / = / > required "
+             "x data_present resp. 9 write types incl. Other; AlreadyExists / FunctionFailure strings, Unprepared ids, Other codes, server message, "
+             "BrokenConnectionError / ConnectionPoolError kinds, ...); XF = six directed execute shapes per variant (error while another execution is in "
+             "flight and succeeds later: first / second execution / two failures; the error as the last result: both orders, alone); "
+             "7 of 8 fielded errors of the random X part carry a seeded variant. "
              "X max interval fibers = one call of the real speculative_execution::execute (hook) under a paused Tokio "
              "clock with synthetic executions (k-th runner invocation sleeps dur_k ticks and yields out_k in "
              "{Success tag, any error variant, None = plan exhausted}); exhaustive part: every assignment of "
